@@ -5,7 +5,7 @@ use rusty_parser::{
 };
 use rusty_variant::Variant;
 
-use super::{Instruction, InstructionGenerator, Visitor};
+use super::{Enclosing, Instruction, InstructionGenerator, Visitor};
 use crate::RuntimeError;
 
 impl InstructionGenerator {
@@ -168,7 +168,7 @@ impl InstructionGenerator {
         self.push(Instruction::PushRegisters, pos);
 
         // run loop body
-        self.for_path.push(pos);
+        self.for_path.push((pos, Enclosing::ForBody));
         self.visit(statements);
         self.for_path.pop();
 
